@@ -9,7 +9,7 @@ Open Scope string_scope.
 Definition env_roc (thr : Q) (xs : list obs) (ts : list Z) : env :=
   {| e_arr := bind_arr [("inp", xs); ("roc", roc_rates xs ts)];
      e_num := bind_num [("threshold", Some thr)];
-     e_str := (fun _ => None);
+     e_str := (fun _ => None); e_bool := (fun _ => None);
      e_size := length xs |}.
 
 Theorem skel_roc thr xs ts :
@@ -35,7 +35,7 @@ Section Speed.
   Definition env_speed (st ft : Q) (lon lat : list obs) (ts : list Z) : env :=
     {| e_arr := bind_arr [("lon", lon); ("lat", lat); ("dist", speed_dist geod lon lat); ("speed", speed_arr lon lat ts)];
        e_num := bind_num [("suspect_threshold", Some st); ("fail_threshold", Some ft)];
-       e_str := (fun _ => None);
+       e_str := (fun _ => None); e_bool := (fun _ => None);
        e_size := length lon |}.
 
   Theorem skel_speed st ft lon lat ts :
